@@ -619,8 +619,11 @@ func parseExcludeRange(s string) []netip.Addr {
 		if err != nil {
 			return nil
 		}
+		if start.BitLen() != end.BitLen() {
+			return nil
+		}
 		var addrs []netip.Addr
-		for addr := start; addr.Compare(end) <= 0; addr = addr.Next() {
+		for addr := start; addr.IsValid() && addr.Compare(end) <= 0; addr = addr.Next() {
 			addrs = append(addrs, addr)
 		}
 		return addrs
